@@ -150,8 +150,16 @@ def rule_key_full(rep, prog, modname, qual, cache_name):
     extra = set()
     if enc is not None and cache_is_global:
         extra = bound_locals(enc)[0] - {fn.name}
-    stores = [n for n in own_nodes(fn) if isinstance(n, ast.Assign) and isinstance(n.targets[0], ast.Subscript)
-              and ast.unparse(n.targets[0].value) == cache_name]
+    stores = []
+    for n in own_nodes(fn):
+        if isinstance(n, ast.Assign):
+            for t_ in n.targets:
+                if isinstance(t_, ast.Subscript) and ast.unparse(t_.value) == cache_name:
+                    # (a chained assignment `x = cache[key] = value` stores as well: seen as `cache[key] = value`)
+                    if t_ is n.targets[0]:
+                        stores.append(n)
+                    else:
+                        stores.append(ast.copy_location(ast.Assign(targets=[t_], value=n.value), n))
     if not stores:
         raise AnalysisError('anchor vanished: no store into %s in %s:%s' % (cache_name, m.rel, qual))
     singles = single_assignments(fn)
@@ -189,7 +197,8 @@ def rule_key_full(rep, prog, modname, qual, cache_name):
     loads = [n for n in own_nodes(fn) if isinstance(n, ast.Subscript) and isinstance(n.ctx, ast.Load) and ast.unparse(n.value) == cache_name]
     tests = [n for n in own_nodes(fn) if isinstance(n, ast.Compare) and isinstance(n.ops[0], (ast.In, ast.NotIn)) and ast.unparse(n.comparators[0]) == cache_name]
     keytxt = {ast.unparse(inline(st.targets[0].slice, singles)) for st in stores}
-    used = {ast.unparse(inline(n.slice, singles)) for n in loads} | {ast.unparse(inline(n.left, singles)) for n in tests}
+    gets = [n for n in own_nodes(fn) if isinstance(n, ast.Call) and isinstance(n.func, ast.Attribute) and n.func.attr in ('get', 'pop', 'setdefault') and ast.unparse(n.func.value) == cache_name and n.args]
+    used = {ast.unparse(inline(n.slice, singles)) for n in loads} | {ast.unparse(inline(n.left, singles)) for n in tests} | {ast.unparse(inline(n.args[0], singles)) for n in gets}
     used = {u.strip('()') for u in used}
     keytxt = {k.strip('()') for k in keytxt}
     rep.ob('R-KEY', '%s:%s %s' % (m.rel, qual, cache_name), used <= keytxt and bool(used),
